@@ -63,9 +63,9 @@ CHECKS = {
         text='Both molecular-Hamiltonian builders (spinless and spin-orbital; optimised and explicit path) run with ALL L^2+L^4 coefficients symbolic; '
              'the dense MPO matrix and an independent Fock-space operator (explicit fermionic signs) are compared entry by entry by SMT for all coefficient '
              'values: spinless L=1..6 (7 thorough), spin L<=3 (4 thorough); spin explicit L=5 (6) structurally (construction succeeds, sparsity, nid_map consistency). '
-             'The orbital-rotation gauge matrices are NOT decided.',
+             'The orbital-rotation gauge matrices are decided for all coefficient tensors and an arbitrary symbolic 2x2 unitary (L=4..6, every pair i).',
         note='Trusts the Fock-space oracle (validated numerically against the unchanged tree each run), z3, engine. Optimised path: zero pattern from a stated family, '
-             'remaining coefficient combinations assumed non-zero. Outside: gauge transform, spin dense L>=4(5), identically-zero operator.',
+             'remaining coefficient combinations assumed non-zero. Outside: spin dense L>=4(5), gauge transform for L>6(7), identically-zero operator.',
         design='6 C07'),
     'C12': dict(
         text='split_matrix_svd / retained_bond_indices / split_mps_tensor run with symbolic charges, entries and tolerance in [0,1); LAPACK SVD replaced by its '
